@@ -27,6 +27,17 @@ structure FieldFact where
   release : Assign
   deriving DecidableEq, Repr, Inhabited
 
+/-- a shared mutable object a request handler can reach besides the fields of the pooled objects: a field of
+    `App`, a package-level variable of the anchored files, or a pool of another file / package that a function of
+    the anchored files takes objects from; `writers`: the functions of the package that write it (for a foreign
+    pool: the functions of the anchored files that use it) -/
+structure SharedObj where
+  owner : String      -- "App" | "package" | "foreign"
+  name : String
+  type : String
+  writers : List String
+  deriving DecidableEq, Repr, Inhabited
+
 structure Lifecycle where
   acquireResets : Bool              -- AcquireCtx calls Reset on what the pool returned
   releaseBeforePut : Bool           -- ReleaseCtx calls release() before pool.Put
